@@ -221,8 +221,9 @@ Proof. intros H. rewrite !rna_rc. apply rc_involutive. apply u2t_alpha. exact H.
 Lemma basket_rc_spec b : basket_rc b = map rc b /\ length (basket_rc b) = length b.
 Proof. unfold basket_rc. split; [reflexivity|apply map_length]. Qed.
 
+Ltac split_pos3 n q := match n with O => idtac | S ?m => destruct q as [q|q|]; [split_pos3 m q|split_pos3 m q|] end.
 Lemma run_C05_lin_eq : forall op s, run_C05_lin op s = run_C05 op s.
 Proof.
-  intros op s. unfold run_C05_lin, run_C05, rc, reverse. rewrite <- rev_alt.
-  destruct op as [|p]; [reflexivity|]. destruct p; reflexivity.
+  intros op s. destruct op as [|p]; [reflexivity|]. split_pos3 3 p; cbn [run_C05_lin run_C05]; unfold rc, reverse;
+    rewrite <- ?rev_alt; reflexivity.
 Qed.
